@@ -357,7 +357,8 @@ META = {
     "only past the lock filter; every per-unit selector can return only files[:k], files or [] of the list that "
     "files() sorted oldest-first (so removal is oldest-first by construction); no `x[:-n]` is evaluated without "
     "n > 0 being established (the -0 slice trap the sampled tests miss); removal is control-dependent on "
-    "`force or size_over < hsize`. The numeric cut k and the SQLite query are not decided.",
+    "`force or size_over < hsize`; the age key of an unclosed session is not read from file metadata that the "
+    "enumeration itself rewrites (stale-lock clearing). The numeric cut k and the SQLite query are not decided.",
     "note": "Decides the listed structural clauses, not the behaviour. Trusted: list.sort on tuples orders by the "
     "first element; the first tuple element is the closing timestamp (read, not checked).",
 }
